@@ -10,7 +10,7 @@ os.makedirs(dst, exist_ok=True)
 for f in ("patch.diff", "demo.py", "patch_original.diff"):
     if os.path.exists(os.path.join(src, f)):
         shutil.copy(os.path.join(src, f), os.path.join(dst, f))
-m = json.load(open(os.path.join(src, "meta.json")))
+m = json.load(open(os.path.join(dst, "meta.json") if os.path.exists(os.path.join(dst, "meta.json")) else os.path.join(src, "meta.json")))
 line = [l for l in open(os.environ.get("SEEDS_LOG", "/tmp/seedverify.log")) if l.startswith(sid + " ")]
 m["confirmed_by_coordinator"] = {
     "procedure": "tools/seedverify.sh: scratch git worktree of /repo under /tmp; demo.py on the clean tree (exit 0); "
